@@ -127,10 +127,10 @@ def run(res, tier, only_case=None):
             continue
         res.nontrivial.add((vlib.hashlib.sha256(base).hexdigest()[:10], line, bool(pins_line)))
         res.count(kind + (":accepted" if i.startswith("OK") else ":rejected"))
-        if i.startswith("OK"):
+        if i.startswith("OK") or i.startswith("RETRY-OPENED"):
             magic_switch = kind == "subst" and pos < 5 and (base[:pos] + bytes([v]) + base[pos + 1:5]) in (b"\0ZCK1", b"\0ZHR1")
             if not magic_switch:
-                res.violation("oracle", key, "header mutant (%s at %d -> %d) of a valid file still opens%s" % (kind, pos, v, " although its header bytes differ from the pinned/stored digest's" if line.startswith("O ") else ""), case)
+                res.violation("oracle", key, "header mutant (%s at %d -> %d) of a valid file %s%s" % (kind, pos, v, "opens when the caller clears the error and reads the header again" if i.startswith("RETRY") else "still opens", " although its header bytes differ from the pinned/stored digest's" if line.startswith("O ") else ""), case)
                 continue
         if i != mres:
             res.violation("correspondence", key.replace("c06:", "c06-corr:"), "model and library disagree on mutant %s: model %s code %s" % (line, mres[:100], i[:100]), case)
